@@ -76,6 +76,7 @@ inline Plan make_plan(const Tx& tx, const Tx& fund, int sel, uint32_t flags) {
         P.scripts = {in.witness.back()}; P.stack = std::vector<bytes>(in.witness.begin(), in.witness.end() - 1);
         return P;
     }
+    if (ver == 1 && prog.size() == 32 && wrapped) { P.refused = true; P.why = "P2SH-wrapped version-1 program is not taproot"; return P; }   // BIP341 applies to native outputs only
     if (ver == 1 && prog.size() == 32 && !wrapped) {
         std::vector<bytes> st = in.witness;
         if (st.size() >= 2 && !st.back().empty() && st.back()[0] == 0x50) { P.annex_present = true; P.annex = st.back(); st.pop_back(); }
